@@ -22,7 +22,7 @@ class Result(dict):
 
 
 def build(ctx, kind='asan'):
-    return ctx.driver('ksi_exec', ['ksi_exec.c', 'ksi_exec_net.c'], kind=kind, curl='sim',
+    return ctx.driver('ksi_exec', ['ksi_exec.c', 'ksi_exec_net.c'], kind=kind, curl='sim', extra_cflags=(['-DKX_FAILPOINTS'] if kind == 'asanfp' else []), extra_ld=(['-no-pie'] if kind == 'asanfp' else []),
                       wraps=['time', 'socket', 'connect', 'ioctl', 'setsockopt', 'poll', 'send', 'recv', 'close', 'getaddrinfo', 'freeaddrinfo', 'fopen'])
 
 
@@ -116,3 +116,17 @@ class Exec:
 
 def hx(b):
     return b.hex() if b else '-'
+
+
+_sym_cache = {}
+
+
+def symbolize(exe, addrs):
+    """addresses (hex strings) -> function names via addr2line (the failpoint driver is linked -no-pie)"""
+    import subprocess
+    todo = [a for a in addrs if (exe, a) not in _sym_cache]
+    if todo:
+        out = subprocess.run(['addr2line', '-f', '-e', exe] + todo, stdout=subprocess.PIPE).stdout.decode().splitlines()
+        for i, a in enumerate(todo):
+            _sym_cache[(exe, a)] = out[2 * i] if 2 * i < len(out) else '?'
+    return [_sym_cache[(exe, a)] for a in addrs]
